@@ -219,6 +219,28 @@ static void pair_array()
 }
 
 // ---- store / load through sandbox memory ------------------------------------------------------
+// ---- call / callback routes: guest functions written in the guest's own types ----
+static i128 g_guest_seen = 0;       // what the guest function / guest caller received
+static long g_guest_calls = 0;
+static i128 g_guest_give = 0;       // the value the guest returns / passes to the callback
+static i128 g_host_seen = 0;        // what the application's callback body received
+static i128 g_host_give = 0;        // what the application's callback body returns
+template<class G>
+static i128 as_i128(G g) { return std::is_signed_v<G> ? (i128)g : (i128)(u128)g; }
+template<class G>
+static G guest_take(G v) { g_guest_seen = as_i128(v); g_guest_calls++; return (G)0; }
+template<class G>
+static G guest_give() { g_guest_calls++; return (G)g_guest_give; }
+template<class SBT, class G>
+static typename SBT::T_IntType guest_call_cb(typename SBT::T_PointerType cb)
+{
+  g_guest_calls++;
+  auto f = (G(*)(G))SBT::current()->rep_to_fn(cb);
+  G r = f((G)g_guest_give);
+  g_guest_seen = as_i128(r);
+  return 0;
+}
+
 template<class Abi>
 struct SL
 {
@@ -383,6 +405,78 @@ struct SL
     }
   }
 
+  template<class T>
+  static tn<T> host_cb(sbx_t&, tn<T> v)
+  {
+    g_host_seen = as_i128(v.UNSAFE_unverified());
+    return (T)g_host_give;
+  }
+  // Integers of the parameter's own type as invocation arguments and results, and as callback arguments and results
+  // (flag-abort build: after a flagged abort the observation is ignored, the flag is the outcome).
+  template<class T>
+  static void call_type(sbx_t& sb)
+  {
+    using G = guest_t<T>;
+    uint64_t idx = g_pair_idx++;
+    if (g_replaying || !mine(idx)) return;
+    setadd("call_types", std::string(Abi::name) + ":" + tname<T>() + "<->" + std::to_string(sizeof(G) * 8) + (std::is_signed_v<G> ? "s" : "u"));
+    using FnT = T(T);
+    using GiveT = T();
+    using CallerT = int(FnT*);
+    auto report = [&](const char* route, i128 m, bool rep, i128 got) {
+      n_eval++;
+      if (m < 0 || m > 127) n_nontriv++;
+      if (!rep) n_mustabort++;
+      std::string sg = std::string("C06 route=") + route + " abi=" + Abi::name + " type=" + tname<T>();
+      std::string k = std::string(route) + ":" + Abi::name + ":" + tname<T>() + ":" + str(m);
+      if (rep && g_abort_flag) viol(sg + " kind=spurious-abort", k, "representable value " + str(m) + " aborted");
+      else if (rep && got != m) viol(sg + " kind=value-changed", k, "sent " + str(m) + " received " + str(got));
+      else if (!rep && !g_abort_flag) viol(sg + " kind=silent-wrap", k, "value " + str(m) + " is not representable in the destination type, no abort, destination received " + str(got));
+    };
+    // 1. application -> guest parameter (plain, tainted)
+    for (T v : lattice<T>()) {
+      i128 m = as_i128(v);
+      for (int form = 0; form < 2; form++) {
+        g_abort_flag = 0;
+        g_guest_seen = -7777;
+        if (form == 0) (void)sb.template INTERNAL_invoke_with_func_ptr<FnT>("take", (void*)&guest_take<G>, v);
+        else { tn<T> tv = v; (void)sb.template INTERNAL_invoke_with_func_ptr<FnT>("take", (void*)&guest_take<G>, tv); }
+        report(form ? "invoke-arg-tainted" : "invoke-arg", m, representable<G>(m), g_guest_seen);
+      }
+    }
+    // 2. guest result -> application
+    for (G g : lattice<G>()) {
+      i128 m = as_i128(g);
+      g_guest_give = m;
+      g_abort_flag = 0;
+      T r = sb.template INTERNAL_invoke_with_func_ptr<GiveT>("give", (void*)&guest_give<G>).UNSAFE_unverified();
+      report("invoke-result", m, representable<T>(m), as_i128(r));
+    }
+    // 3./4. callback argument (guest -> application) and callback result (application -> guest)
+    {
+      auto cb = sb.register_callback(host_cb<T>);
+      for (G g : lattice<G>()) {
+        i128 m = as_i128(g);
+        g_guest_give = m;
+        g_host_give = 0;
+        g_host_seen = -7777;
+        g_abort_flag = 0;
+        (void)sb.template INTERNAL_invoke_with_func_ptr<CallerT>("call_cb", (void*)&guest_call_cb<SB, G>, cb);
+        report("callback-arg", m, representable<T>(m), g_host_seen);
+      }
+      for (T v : lattice<T>()) {
+        i128 m = as_i128(v);
+        g_guest_give = 0;
+        g_host_give = m;
+        g_guest_seen = -7777;
+        g_abort_flag = 0;
+        (void)sb.template INTERNAL_invoke_with_func_ptr<CallerT>("call_cb", (void*)&guest_call_cb<SB, G>, cb);
+        report("callback-result", m, representable<G>(m), g_guest_seen);
+      }
+      cb.unregister();
+    }
+  }
+
   static void run(int inst)
   {
     sbx_t sb;
@@ -397,6 +491,7 @@ struct SL
     for_types(Cells{}, [&](auto* t) {
       using T = std::remove_pointer_t<decltype(t)>;
       cell_type<T>(sb);
+      call_type<T>(sb);
     });
     sb.destroy_sandbox();
   }
